@@ -365,3 +365,104 @@ Proof.
         destruct (Nat.ltb_spec 50 (List.length (c :: t))) as [L'|_]; [lia|].
         rewrite BR. reflexivity.
 Qed.
+
+(* ---- from_str_in ------------------------------------------------------------------------------ *)
+Lemma scaled_nonneg decs ip fp : 0 <= scaled decs ip fp.
+Proof.
+  unfold scaled. pose proof (dval_nonneg ip). pose proof (dval_nonneg fp).
+  pose proof (pow10_pos decs). pose proof (pow10_pos (decs - List.length fp)). nia.
+Qed.
+
+Lemma shape_unsigned_no_sign s ip fp : decimal_shape s false ip fp -> all_digits ip -> ~ has_sign s.
+Proof.
+  intros SH A [t E]. subst s.
+  inversion SH as [neg' ip' NE E1 E2 E3 E4|neg' ip' fp' E1 E2 E3 E4]; subst; cbn [sign_str app] in *.
+  - assert (M : is_minus x2d = false).
+    { apply (head_not_minus ip [] x2d t A); [rewrite app_nil_r; assumption|intros ->; congruence]. }
+    discriminate M.
+  - assert (M : is_minus x2d = false).
+    { apply (head_not_minus ip (x2e :: fp) x2d t A); [assumption|]. intros _. eauto. }
+    discriminate M.
+Qed.
+
+Lemma shape_signed_has_sign s ip fp : decimal_shape s true ip fp -> has_sign s.
+Proof.
+  intros SH. inversion SH; subst; cbn [sign_str app]; eexists; reflexivity.
+Qed.
+
+Lemma parse_no_panic s d : parse_signed_to_piconero s d <> APanic.
+Proof.
+  destruct s as [|c0 t0]; [discriminate|]. rewrite parse_unfold.
+  destruct (Nat.ltb 50 (List.length (c0 :: t0))); [discriminate|].
+  destruct (is_minus c0 && Nat.eqb (List.length (c0 :: t0)) 1); [discriminate|].
+  pose proof (body_run_no_panic (decimals d) (if is_minus c0 then t0 else c0 :: t0)) as H.
+  destruct (body_run (decimals d) (if is_minus c0 then t0 else c0 :: t0)); cbn [abind]; congruence.
+Qed.
+
+Lemma as_i64_small v : 0 <= v <= I64MAX -> as_i64 v = v.
+Proof.
+  unfold I64MAX, as_i64. intros H. rewrite Z.mod_small by lia.
+  destruct (Z.ltb_spec v (2 ^ 63)); lia.
+Qed.
+
+Theorem amount_from_str_in_spec d s q :
+  amount_from_str_in s d = AOk q <->
+  denotes (decimals d) s q /\ ~ has_sign s /\ q <= 2 ^ 63 - 1.
+Proof.
+  unfold amount_from_str_in. split.
+  - destruct (parse_signed_to_piconero s d) as [[neg v]| |] eqn:P; cbn [abind]; try discriminate.
+    destruct neg; [discriminate|]. destruct (Z.gtb_spec v I64MAX) as [G|G]; [discriminate|].
+    intros [= <-]. apply parse_signed_spec in P. destruct P as (ip & fp & SH & A & B & L & Lf & E & R).
+    split; [|split].
+    + exists false, ip, fp. repeat split; auto. rewrite E. unfold scaled. lia.
+    + eapply shape_unsigned_no_sign; eauto.
+    + unfold I64MAX in G. lia.
+  - intros ((neg & ip & fp & SH & A & B & L & Lf & E) & NS & R).
+    destruct neg; [exfalso; apply NS; eapply shape_signed_has_sign; eauto|].
+    assert (P : parse_signed_to_piconero s d = AOk (false, q)).
+    { apply parse_signed_spec. exists ip, fp. repeat split; auto.
+      - rewrite E. unfold scaled. lia.
+      - unfold U64MAX. lia. }
+    rewrite P. cbn [abind]. destruct (Z.gtb_spec q I64MAX) as [G|G]; [unfold I64MAX in G; lia|reflexivity].
+Qed.
+
+Theorem signed_from_str_in_spec d s q :
+  signed_from_str_in s d = AOk q <->
+  denotes (decimals d) s q /\ - (2 ^ 63 - 1) <= q <= 2 ^ 63 - 1.
+Proof.
+  unfold signed_from_str_in. split.
+  - destruct (parse_signed_to_piconero s d) as [[neg v]| |] eqn:P; cbn [abind]; try discriminate.
+    destruct (Z.gtb_spec v I64MAX) as [G|G]; [discriminate|].
+    apply parse_signed_spec in P. destruct P as (ip & fp & SH & A & B & L & Lf & E & R).
+    pose proof (scaled_nonneg (decimals d) ip fp) as NN. rewrite <- E in NN.
+    rewrite as_i64_small by lia. intros Q.
+    assert (Q' : q = (if neg then -1 else 1) * v).
+    { destruct neg; [|injection Q as <-; lia]. unfold i64_neg in Q.
+      destruct (Z.eqb_spec v I64MIN) as [M|M]; [unfold I64MIN in M; lia|]. injection Q as <-. lia. }
+    split.
+    + exists neg, ip, fp. repeat split; auto. rewrite Q', E. reflexivity.
+    + unfold I64MAX in G. destruct neg; lia.
+  - intros ((neg & ip & fp & SH & A & B & L & Lf & E) & R).
+    pose proof (scaled_nonneg (decimals d) ip fp) as NN. fold (scaled (decimals d) ip fp) in E.
+    assert (P : parse_signed_to_piconero s d = AOk (neg, scaled (decimals d) ip fp)).
+    { apply parse_signed_spec. exists ip, fp. repeat split; auto. unfold U64MAX. destruct neg; lia. }
+    rewrite P. cbn [abind].
+    destruct (Z.gtb_spec (scaled (decimals d) ip fp) I64MAX) as [G|G]; [unfold I64MAX in G; destruct neg; lia|].
+    rewrite as_i64_small by lia. destruct neg.
+    + unfold i64_neg. destruct (Z.eqb_spec (scaled (decimals d) ip fp) I64MIN) as [M|M]; [unfold I64MIN in M; lia|].
+      f_equal. lia.
+    + f_equal. lia.
+Qed.
+
+Theorem from_str_in_no_panic d s : amount_from_str_in s d <> APanic /\ signed_from_str_in s d <> APanic.
+Proof.
+  unfold amount_from_str_in, signed_from_str_in. pose proof (parse_no_panic s d) as NP.
+  destruct (parse_signed_to_piconero s d) as [[neg v]| |] eqn:P; cbn [abind]; try (split; congruence).
+  split.
+  - destruct neg; [discriminate|]. destruct (v >? I64MAX); discriminate.
+  - destruct (Z.gtb_spec v I64MAX) as [G|G]; [discriminate|].
+    apply parse_signed_spec in P. destruct P as (ip & fp & _ & _ & _ & _ & _ & E & _).
+    pose proof (scaled_nonneg (decimals d) ip fp) as NN. rewrite <- E in NN.
+    rewrite as_i64_small by lia. destruct neg; [|discriminate]. unfold i64_neg.
+    destruct (Z.eqb_spec v I64MIN) as [M|M]; [unfold I64MIN in M; lia|discriminate].
+Qed.
